@@ -46,7 +46,7 @@ ABI_TARGETS = [("x64", "elf", "att"), ("x64", "pe", "intel"), ("ia32", "pe", "at
 OPS_KINDS = ("ldlit", "pg", "lo", "got", "gotlo")
 SAMPLE = {"C12": {"quick": 4000, "thorough": 60000},
           "C13": {"quick": 3000, "thorough": 40000}}
-MC_TIMEOUT = {"quick": 300, "thorough": 1500}
+MC_TIMEOUT = {"quick": 900, "thorough": 2400}   # (a timeout is a machinery failure, never a verdict)
 WORKERS = int(os.environ.get("VERIF_TLC_WORKERS", "16"))
 
 # ISA x format x syntax x PIE; quick takes them round-robin (each pair of
@@ -140,19 +140,18 @@ def run(prop: str, tier: str, replay: str = None) -> int:
             cfgs = CONFIGS[prop][tier]
             # the configurations are independent model-checking runs: run them
             # side by side and share the cores between them
-            per = max(2, WORKERS // len(cfgs))
+            wsum = sum(w for _, _, w in cfgs)
 
             def gen(c) -> dict:
-                spec, cfg, _ = c
+                spec, cfg, w = c
                 part = os.path.join(wd, cfg + ".ndjson")
                 res = tlc.generate(spec, cfg, "CASE", part, timeout=MC_TIMEOUT[tier],
-                                   workers=per, heap="4g")
+                                   workers=max(2, round(WORKERS * w / wsum)), heap="4g")
                 res["part"] = part
                 return res
 
             with ThreadPoolExecutor(max_workers=len(cfgs)) as ex:
                 results = list(ex.map(gen, cfgs))
-            wsum = sum(w for _, _, w in cfgs)
             first = 0
             with open(cases, "w") as out:
                 for (spec, cfg, w), res in zip(cfgs, results):
